@@ -149,3 +149,11 @@ for _f in sorted(_glob.glob(_os.path.join(_os.path.dirname(_os.path.abspath(__fi
 # second parts of checks whose configuration lives in an extra file
 CHECKS["C20"]["extra_parts"] = ["C20T"]  # decompressors obtained by the tracer, concurrent traced operations (tracer test binary)
 CHECKS["C17"]["extra_parts"] = ["C17E"]  # the raw body encoders under concurrent use (engine S, ./internal test binary)
+
+# resource oracle (simwork): one simulated run of the tracer scenarios must not allocate more than this many MiB
+# (the largest generated bodies are about 1 MiB; a length announced by the peer must never become an allocation size)
+for _id in ("C14", "C15"):
+    for _scn in CHECKS[_id]["scenarios"]:
+        _p = _scn.setdefault("params", {})
+        _p.setdefault("quick", {})["max_alloc_mb"] = 256
+        _p.setdefault("thorough", {})["max_alloc_mb"] = 512
